@@ -1,6 +1,7 @@
 package main
 
 import (
+	"regexp"
 	"fmt"
 	"go/ast"
 	"os"
@@ -43,6 +44,8 @@ type loopInfo struct {
 
 type FnRun struct {
 	pendingRet map[string]Val // results about to be returned, while deferred calls run
+	callsObj   *Obj           // ghost object holding the call counters used by calls("pattern")
+	callPats   []string
 	postSkipped, postEvaluated map[*Clause]int
 	siteArgs   []Val          // arguments of the call whose callsite assertions are being checked
 	ex       *Exec
@@ -221,6 +224,7 @@ func (ex *Exec) verifyCase(fn *ssa.Function, key string, ctr *Contract, cs *Case
 	st.old = entry
 	fr.entry = entry
 	fr.entryMaxObj = ex.objCount
+	fr.initCallCounters(st)
 	fr.checkSitesExist(st)
 	for _, sp := range fr.stalePre {
 		parts := strings.SplitN(sp, "|", 2)
@@ -758,6 +762,113 @@ func (fr *FnRun) mentionsUndefinedLocal(evalErr string) bool {
 	}
 	_, ok := fr.locals[name]
 	return ok
+}
+
+// Call counters: `calls("pattern")` in a postcondition or call-site assertion is the number of calls
+// matching the pattern (same patterns as `callsite`) that the function itself has executed so far
+// on the current path.  The counters live in a ghost object created after entry (so they are not
+// part of the frame); a loop whose body contains a matching call makes the counter unknown
+// (non-negative) at the loop head.
+var callsRe = regexp.MustCompile(`calls\("([^"]+)"\)`)
+
+func (fr *FnRun) initCallCounters(st *State) {
+	fr.callsObj, fr.callPats = nil, nil
+	if fr.ctr == nil {
+		return
+	}
+	seen := map[string]bool{}
+	scan := func(src string) {
+		for _, m := range callsRe.FindAllStringSubmatch(src, -1) {
+			if !seen[m[1]] {
+				seen[m[1]] = true
+				fr.callPats = append(fr.callPats, m[1])
+			}
+		}
+	}
+	for _, en := range fr.ctr.Ensures {
+		scan(en.Src)
+	}
+	for _, cs := range fr.ctr.Cases {
+		for _, en := range cs.Ensures {
+			scan(en.Src)
+		}
+	}
+	for _, sp := range fr.ctr.Sites {
+		for _, a := range sp.Asserts {
+			scan(a.Src)
+		}
+	}
+	if len(fr.callPats) == 0 {
+		return
+	}
+	fr.callsObj = fr.ex.newObj("calls!", nil)
+	g := map[string]Val{}
+	for _, p := range fr.callPats {
+		g[p] = Int(0)
+	}
+	st.heap[fr.callsObj] = &StructV{Ghost: g}
+}
+
+// bumpCallCounters: a call made by the function itself is about to run.
+func (fr *FnRun) bumpCallCounters(st *State, site ssa.Instruction) {
+	if fr.callsObj == nil || site == nil || site.Parent() != fr.fn {
+		return
+	}
+	sv, ok := st.heap[fr.callsObj].(*StructV)
+	if !ok {
+		return
+	}
+	var ng map[string]Val
+	for _, p := range fr.callPats {
+		if !fr.siteMatches(&CallSiteSpec{Pattern: p}, site) {
+			continue
+		}
+		if ng == nil {
+			ng = map[string]Val{}
+			for k, v := range sv.Ghost {
+				ng[k] = v
+			}
+		}
+		ng[p] = Add(ng[p].(*Term), Int(1))
+	}
+	if ng != nil {
+		st.heap[fr.callsObj] = &StructV{Ghost: ng}
+	}
+}
+
+// loopCallCounters: at a loop head, counters of calls that occur inside the loop become unknown.
+func (fr *FnRun) loopCallCounters(st *State, li *loopInfo) {
+	if fr.callsObj == nil {
+		return
+	}
+	sv, ok := st.heap[fr.callsObj].(*StructV)
+	if !ok {
+		return
+	}
+	var ng map[string]Val
+	for _, p := range fr.callPats {
+		inLoop := false
+		for _, in := range fr.matchingSites(&CallSiteSpec{Pattern: p}) {
+			if li.blocks[in.Block()] {
+				inLoop = true
+			}
+		}
+		if !inLoop {
+			continue
+		}
+		if ng == nil {
+			ng = map[string]Val{}
+			for k, v := range sv.Ghost {
+				ng[k] = v
+			}
+		}
+		nv := Var(fr.ex.fresh("calls!"+sanitize(p)), SInt)
+		st.assume(Le(Int(0), nv))
+		ng[p] = nv
+	}
+	if ng != nil {
+		st.heap[fr.callsObj] = &StructV{Ghost: ng}
+	}
 }
 
 // staleName: the evaluation error names an identifier that is neither a parameter, a captured
